@@ -1,10 +1,12 @@
 /- line-protocol driver: `<family> <command…>` per line in, one canonical line out -/
 import Driver.PathFam
+import Driver.ForestFam
 
 open Driver
 
 structure St where
   path : Option PathFam.Tree := none
+  forest : Option MagpyVerif.Forest := none
 
 def stepLine (st : St) (line : String) : St × String :=
   let line := line.trimAscii.toString
@@ -12,6 +14,9 @@ def stepLine (st : St) (line : String) : St × String :=
   | "path" :: _ =>
     let (p, out) := PathFam.step st.path (line.drop 5).toString
     ({ st with path := p }, out)
+  | "forest" :: _ =>
+    let (p, out) := ForestFam.step st.forest (line.drop 7).toString
+    ({ st with forest := p }, out)
   | _ => (st, "bad-family")
 
 partial def loop (h : IO.FS.Stream) (out : IO.FS.Stream) (st : St) : IO Unit := do
